@@ -182,11 +182,16 @@ func rsOutText(o rsOut) string {
 	return name
 }
 
-// rsRender writes the program the way a user would: aliases (dip/dport, domain keys ''/domain/contains),
+// rsRender writes the program the way a user would: aliases (dip/dport, domain keys ”/domain/contains),
 // and spacing/comment trivia are chosen by the seeded rng; the meaning is the vector's program.
 func rsRender(v *rsVector, rng *rand.Rand) string {
 	var sb strings.Builder
 	sb.WriteString("routing {\n")
+	// VERIF_RS_SHIFT=n: n rules that mention names nobody asks for come first (alternating outbounds so that the optimiser
+	// keeps them apart): the program's own domain sets move to higher bitmap indices (other 32-rule words), its meaning stays
+	for i := 0; i < verifutil.EnvInt("VERIF_RS_SHIFT", 0); i++ {
+		fmt.Fprintf(&sb, "  domain(full: filler%d.invalid) -> %s\n", i, []string{"block", "direct"}[i%2])
+	}
 	for _, r := range v.Prog {
 		var conds []string
 		for _, c := range r.Conds {
